@@ -6,6 +6,7 @@
    What is abstract (Section variables, no hypotheses unless named):
      validate_ok      the outcome of GeneratedsSuperSuper.validate() on a component (modelled by another builder)
      setup_nml_cell   Cell.setup_nml_cell(), the one special case of component_factory
+     str_ok           whether str(component) returns (the duplicate warning formats the child with it)
      shuffle          the order of list(set(...)) in _get_members: any function; the theorems hold for all of them
    Identity of python objects is not modelled: a component is its value (class + fields).  `x in list` (identity
    or ==) therefore is value equality, which is what GeneratedsSuper.__eq__ computes for components made by the
@@ -128,7 +129,8 @@ Inductive exn :=
 | ExCtor                                  (* the constructor raised (a cast failed) *)
 | ExNoClass                               (* getattr(module, name) failed *)
 | ExKey (m : string)                      (* KeyError: vars(self)[m] *)
-| ExAttr (m : string).                    (* AttributeError/TypeError: the member does not hold a list *)
+| ExAttr (m : string)                     (* AttributeError/TypeError: the member does not hold a list *)
+| ExStr.                                  (* str(child) raised while the duplicate warning was being formatted *)
 
 Inductive warning :=
 | WOccupied (m : string)                  (* warnings.warn "<m> has already been assigned" *)
@@ -155,6 +157,7 @@ Notation o_fields := (o_fields F).
 
 Variable validate_ok : obj -> bool.
 Variable setup_nml_cell : obj -> obj.
+Variable str_ok : obj -> bool.            (* str(component) returns (the __str__ helper methods may raise) *)
 Variable shuffle : list mspec -> list mspec.
 
 (* cls._get_members(): list(set(...)) *)
@@ -255,7 +258,9 @@ Definition store (p child : obj) (t : mspec) (force : bool) : res obj * list war
     | None => (Err (ExKey n), [])
     | Some (VObjs l) =>
       if force then (Ret (with_field p n (VObjs (l ++ [child])%list)), [])
-      else if existsb (obj_eqb child) l then (Ret p, [WDuplicate n])
+      else if existsb (obj_eqb child) l then
+             (* warnings.warn("{} already exists in {}...".format(obj, name)) : formats the child *)
+             (if str_ok child then (Ret p, [WDuplicate n]) else (Err ExStr, []))
            else (Ret (with_field p n (VObjs (l ++ [child])%list)), [])
     | Some _ => (Err (ExAttr n), [])
     end.
@@ -425,8 +430,10 @@ Definition sortable (l : list value) : bool := Nat.leb (length l) 1 || forallb i
 
 Record gout := { g_res : gres; g_warn : nat; g_msg : option gmsg }.
 
-(* own = type(self).member_data_items_ ; wc = self.warn_count *)
-Definition get_by_id (is_doc : bool) (own : list mspec) (d : obj) (wc : nat) (i : string) : gout :=
+(* own = type(self).member_data_items_ ; wc = self.warn_count.
+   fixed = false: str(sorted(all_ids)) as in the repository; fixed = true: with fixes/C11-get-by-id-unsortable.patch
+   (sorted(all_ids, key=str), which cannot raise) *)
+Definition get_by_id (fixed : bool) (is_doc : bool) (own : list mspec) (d : obj) (wc : nat) (i : string) : gout :=
   if is_doc && String.eqb i "" then {| g_res := GNone; g_warn := wc; g_msg := Some MNoId |}
   else
     match scan_members i (o_fields d) own [] with
@@ -434,7 +441,7 @@ Definition get_by_id (is_doc : bool) (own : list mspec) (d : obj) (wc : nat) (i 
     | SRaise => {| g_res := GRaise; g_warn := wc; g_msg := None |}
     | SIds ids =>
       if Nat.ltb wc 10 then
-        if sortable ids then {| g_res := GNone; g_warn := S wc; g_msg := Some MNotFound |}
+        if fixed || sortable ids then {| g_res := GNone; g_warn := S wc; g_msg := Some MNotFound |}
         else {| g_res := GRaise; g_warn := wc; g_msg := None |}
       else if Nat.eqb wc 10 then {| g_res := GNone; g_warn := wc; g_msg := Some MSuppress |}
       else {| g_res := GNone; g_warn := wc; g_msg := None |}
@@ -451,8 +458,10 @@ Record sdecl := {
   sd_xml : string;          (* attribute name / element tag ("" for xs:any) *)
   sd_is_attr : bool;
   sd_type : string;         (* declared type, as written in the schema *)
-  sd_required : bool;       (* use="required" / effective minOccurs >= 1 *)
-  sd_list : bool            (* maxOccurs > 1 or unbounded *)
+  sd_required : bool;       (* use="required" / effective minOccurs >= 1 (a member of an xs:choice is not required) *)
+  sd_required_literal : bool; (* use="required" / the element declaration's own minOccurs >= 1 *)
+  sd_list : bool;           (* effective maxOccurs > 1 or unbounded *)
+  sd_in_choice : bool
 }.
 Record sclass := { sc_name : string; sc_decls : list sdecl }.
 (* simple types: name -> the type it restricts *)
@@ -498,18 +507,33 @@ Fixpoint find_px (l : list pyxml) (py : string) : option pyxml :=
   | x :: r => if String.eqb (px_py x) py then Some x else find_px r py
   end.
 
-(* one member of one class against the schema *)
-Definition member_agrees (S : schema) (ds : list sdecl) (px : list pyxml) (m : mspec) : bool :=
-  match find_px px (ms_name m) with
+(* info() calls the xs:any member __ANY__; the constructor and the export table call it anytypeobjs_ *)
+Definition rename_any (n : string) : string := if String.eqb n "__ANY__" then "anytypeobjs_" else n.
+
+(* one member of one class against the schema: type and list nature as declared (effective occurrence), the
+   required flag as the declaration itself says (use / own minOccurs), which outside an xs:choice is also the
+   effective requirement *)
+Definition decl_okb (S : schema) (m : mspec) (d : sdecl) : bool :=
+  type_agrees S (ms_dtype m) (sd_type d)
+  && Bool.eqb (ms_container m) (sd_list d)
+  && Bool.eqb (negb (ms_optional m)) (sd_required_literal d)
+  && (sd_in_choice d || Bool.eqb (negb (ms_optional m)) (sd_required d)).
+
+Definition member_okb (S : schema) (ds : list sdecl) (px : list pyxml) (m : mspec) : bool :=
+  match find_px px (rename_any (ms_name m)) with
   | None => false
   | Some x =>
     match find_decl ds (px_xml x) (px_is_attr x) with
     | None => false
-    | Some d => type_agrees S (ms_dtype m) (sd_type d)
-                && Bool.eqb (negb (ms_optional m)) (sd_required d)
-                && Bool.eqb (ms_container m) (sd_list d)
+    | Some d => decl_okb S m d
     end
   end.
+
+(* every declaration of the schema is reported by some member *)
+Definition decl_coveredb (px : list pyxml) (ms : list mspec) (d : sdecl) : bool :=
+  existsb (fun m => match find_px px (rename_any (ms_name m)) with
+                    | Some x => String.eqb (px_xml x) (sd_xml d) && Bool.eqb (px_is_attr x) (sd_is_attr d)
+                    | None => false end) ms.
 
 (* string sets *)
 Definition subset (a b : list string) : bool := forallb (fun x => mem x b) a.
@@ -534,7 +558,8 @@ Definition exn_code (e : exn) : nat * list string :=
   | ExCtor => (6, [])
   | ExNoClass => (7, [])
   | ExKey m => (8, [m])
-  | ExAttr m => (9, [m])
+  | ExAttr m => (9, [])
+  | ExStr => (10, [])
   end%nat.
 
 Definition warn_code (w : warning) : nat * string :=
@@ -561,26 +586,31 @@ Record xcall := {
   xc_vchild : bool;                 (* oracle: validate() of the component the factory made *)
   xc_vparent : bool;                (* oracle: validate() of the parent after the call *)
   xc_cell : option (obj XF);        (* oracle: what Cell.setup_nml_cell made of the new cell *)
-  xc_parent_after : option (obj XF);(* observed parent after the call; None = member-wise identical to before *)
+  xc_str : bool;                    (* oracle: str(child) returns *)
+  xc_parent_after : list (string * value XF); (* observed parent after the call: the members that differ from before *)
   xc_code : nat * list string;      (* observed outcome: 0 returned the child, 20 returned None, else exn_code *)
-  xc_ret : option (obj XF);         (* observed returned component *)
+  xc_ret : option (obj XF);         (* observed returned component, when it is not the one passed in *)
   xc_warn : list (nat * string);    (* observed warnings.warn calls, in order *)
   xc_disabled : option nat          (* observed number of "Build time validation is disabled." log records *)
 }.
 
 Record xcase := { xa_enabled : bool; xa_parent : obj XF; xa_calls : list xcall }.
 
+Definition x_after (p : obj XF) (c : xcall) : obj XF :=
+  Obj (o_cls XF p) (fold_left (fun fs nv => set_field XF (fst nv) (snd nv) fs) (xc_parent_after c) (o_fields XF p)).
+
 Definition x_add (fixed : bool) (M : mtables) (T : tables) (enabled : bool) (p : obj XF) (c : xcall) : add_out XF :=
-  let pa := match xc_parent_after c with Some q => q | None => p end in
+  let pa := x_after p c in
   add_with XF xf_eqb dec_norm
            (fun o => if x_obj_eqb o pa then xc_vparent c else xc_vchild c)
            (fun o => match xc_cell c with Some q => q | None => o end)
+           (fun _ => xc_str c)
            fixed (x_members M) T enabled p (xc_child c) (xc_hint c) (xc_force c) (xc_validate c).
 
 (* bit 1 parent afterwards, 2 outcome, 4 warnings, 8 log count, 16 returned component *)
 Definition check_call (fixed : bool) (M : mtables) (T : tables) (enabled : bool) (p : obj XF) (c : xcall) : nat :=
   let r := x_add fixed M T enabled p c in
-  let pa := match xc_parent_after c with Some q => q | None => p end in
+  let pa := x_after p c in
   let b1 := x_obj_eqb (ao_parent XF r) pa in
   let code := match ao_res XF r with
               | Ret None => (20%nat, [])
@@ -590,9 +620,9 @@ Definition check_call (fixed : bool) (M : mtables) (T : tables) (enabled : bool)
   let b2 := Nat.eqb (fst code) (fst (xc_code c)) && set_eqb (snd code) (snd (xc_code c)) in
   let b3 := codes_eqb (map warn_code (filter not_disabled (ao_warn XF r))) (xc_warn c) in
   let b4 := match xc_disabled c with Some n => Nat.eqb n (count_disabled (ao_warn XF r)) | None => true end in
-  let b5 := match ao_res XF r with
-            | Ret (Some o) => opt_xobj_eqb (Some o) (xc_ret c)
-            | _ => match xc_ret c with None => true | Some _ => false end
+  let b5 := match xc_ret c with
+            | None => true
+            | Some x => match ao_res XF r with Ret (Some o) => x_obj_eqb o x | _ => false end
             end in
   ((if b1 then 0 else 1) + (if b2 then 0 else 2) + (if b3 then 0 else 4) + (if b4 then 0 else 8) + (if b5 then 0 else 16))%nat.
 
@@ -602,7 +632,7 @@ Fixpoint check_calls (fixed : bool) (M : mtables) (T : tables) (enabled : bool) 
   | [] => []
   | c :: r =>
     let k := check_call fixed M T enabled p c in
-    let pa := match xc_parent_after c with Some q => q | None => p end in
+    let pa := x_after p c in
     let rest := check_calls fixed M T enabled pa (S j) r in
     if Nat.eqb k 0 then rest else (j, k) :: rest
   end.
@@ -613,4 +643,85 @@ Fixpoint add_mismatches (fixed : bool) (M : mtables) (T : tables) (i : nat) (l :
   | [] => []
   | a :: r => (map (fun jk => (i, jk)) (check_calls fixed M T (xa_enabled a) (xa_parent a) 0 (xa_calls a))
                ++ add_mismatches fixed M T (S i) r)%list
+  end.
+
+(* constructor keywords without the two technical ones *)
+Definition tech_params : list string := ["extensiontype_"; "gds_collector_"].
+Definition ctor_keywords (kw : list (string * list string)) (c : string) : list string :=
+  filter (fun n => negb (mem n tech_params)) (match lookup c kw with Some l => l | None => [] end).
+
+Definition decls_of (S : schema) (c : string) : list sdecl :=
+  match find_sclass (s_classes S) c with Some k => sc_decls k | None => [] end.
+Definition px_of (P : list (string * list pyxml)) (c : string) : list pyxml :=
+  match lookup c P with Some l => l | None => [] end.
+
+(* the one known slip of the generated metadata *)
+Definition is_property_slip (c : string) (m : mspec) : bool :=
+  String.eqb c "ComponentType" && String.eqb (ms_name m) "Property".
+
+(* ------------------------------------------------------------------ executable checks for the C11 correspondence *)
+Record icase := {
+  ic_cls : string;
+  ic_info : list string;      (* real info(show_contents=True, return_format="dict"): "name|type|R" / "name|type|O" *)
+  ic_list : list string;      (* real info(return_format="list") *)
+  ic_parents : list string;   (* real parentinfo(return_format="dict"): "parent|member|type|R/O" *)
+  ic_sig : list string        (* real inspect.signature of the constructor (without self, gds_collector_, **kwargs_) *)
+}.
+
+Definition ro (b : bool) : string := if b then "R" else "O".
+Definition enc_info (e : info_entry) : string := ie_name e ++ "|" ++ ie_type e ++ "|" ++ ro (ie_required e).
+Definition enc_parent (e : parent_entry) : string :=
+  pe_parent e ++ "|" ++ pe_member e ++ "|" ++ pe_type e ++ "|" ++ ro (pe_required e).
+
+(* bit 1 info dict, 2 info list, 4 parentinfo, 8 constructor signature *)
+Definition check_icase (M : mtables) (kw : list (string * list string)) (c : icase) : nat :=
+  let ms := x_members M (ic_cls c) in
+  let b1 := set_eqb (map enc_info (info_dict ms)) (ic_info c) in
+  let b2 := set_eqb (info_list ms) (ic_list c) && Nat.eqb (length (info_list ms)) (length (ic_list c)) in
+  let b3 := set_eqb (map enc_parent (parentinfo (fun l => l) M (ic_cls c))) (ic_parents c) in
+  let b4 := strs_eqb (filter (fun n => negb (String.eqb n "gds_collector_")) (match lookup (ic_cls c) kw with Some l => l | None => [] end))
+                     (ic_sig c) in
+  ((if b1 then 0 else 1) + (if b2 then 0 else 2) + (if b3 then 0 else 4) + (if b4 then 0 else 8))%nat.
+
+Fixpoint info_mismatches (M : mtables) (kw : list (string * list string)) (i : nat) (l : list icase) : list (nat * nat) :=
+  match l with
+  | [] => []
+  | c :: r => let k := check_icase M kw c in
+              if Nat.eqb k 0 then info_mismatches M kw (S i) r else (i, k) :: info_mismatches M kw (S i) r
+  end.
+
+Record idcase := {
+  gc_is_doc : bool;
+  gc_obj : obj XF;
+  gc_wc : nat;                 (* warn_count before the call *)
+  gc_id : string;
+  gc_res : nat;                (* observed: 0 None, 1 a component, 2 an exception *)
+  gc_found : option (obj XF);
+  gc_wc_after : nat;
+  gc_msg : nat                 (* observed print: 0 nothing, 1 "asking for an element with no id", 2 "not found", 3 "Suppressing" *)
+}.
+
+Definition msg_code (m : option gmsg) : nat :=
+  match m with None => 0 | Some MNoId => 1 | Some MNotFound => 2 | Some MSuppress => 3 end%nat.
+
+(* bit 1 result kind, 2 component found, 4 counter, 8 message *)
+Definition check_idcase (fixed : bool) (M : mtables) (c : idcase) : nat :=
+  let r := get_by_id XF fixed (gc_is_doc c) (own_specs M (o_cls XF (gc_obj c))) (gc_obj c) (gc_wc c) (gc_id c) in
+  let kind := match g_res XF r with GNone _ => 0 | GFound _ _ => 1 | GRaise _ => 2 end%nat in
+  let b1 := Nat.eqb kind (gc_res c) in
+  let b2 := match g_res XF r, gc_found c with
+            | GFound _ o, Some x => x_obj_eqb o x
+            | GFound _ _, None => false
+            | _, Some _ => false
+            | _, None => true
+            end in
+  let b3 := Nat.eqb (g_warn XF r) (gc_wc_after c) in
+  let b4 := Nat.eqb (msg_code (g_msg XF r)) (gc_msg c) in
+  ((if b1 then 0 else 1) + (if b2 then 0 else 2) + (if b3 then 0 else 4) + (if b4 then 0 else 8))%nat.
+
+Fixpoint id_mismatches (fixed : bool) (M : mtables) (i : nat) (l : list idcase) : list (nat * nat) :=
+  match l with
+  | [] => []
+  | c :: r => let k := check_idcase fixed M c in
+              if Nat.eqb k 0 then id_mismatches fixed M (S i) r else (i, k) :: id_mismatches fixed M (S i) r
   end.
